@@ -148,6 +148,20 @@ def _line_offsets(src):
     return offs
 
 
+def backslash_line_mutant(rnd, src):
+    """a physical line that holds only (blanks and) a backslash continuation, put in front of a statement line - optionally with a blank or
+    comment-only line after it. CPython continues measuring the indentation on the next line; whether the result is valid is left to it"""
+    lines = src.split("\n")
+    cands = [i for i, l in enumerate(lines) if l.strip() and not l.lstrip().startswith("#")]
+    if not cands:
+        return src
+    i = rnd.choice(cands)
+    ind = lines[i][: len(lines[i]) - len(lines[i].lstrip(" \t"))]
+    pre = rnd.choice(["", "", ind, ind + "  ", " ", "\t"]) + "\\"
+    extra = rnd.choice([[], [], [""], ["# c"], [ind + "# c"], ["", ""], [pre]])
+    return "\n".join(lines[:i] + [pre] + extra + lines[i:])
+
+
 def layout_mutant(rnd, src, toks=None, nedits=None):
     """insert whitespace / newlines / comments / continuations between tokens; None if nothing applicable"""
     toks = toks if toks is not None else py_tokens(src)
